@@ -7,6 +7,7 @@ leaves the subset, its previous section is kept (so the file still builds), the 
 group reports the tie as lost for that definition (core.py: status 'lost', exit code unaffected).
 """
 import ast
+import hashlib
 import os
 import re
 import subprocess
@@ -158,7 +159,24 @@ def regenerator(group):
             old = {}
         text, info, lost = generate(group, old=old)
         changed = write_if_changed(path, text)
-        bad = validate(group, [d for d in info])
+        # validation is a function of (generated text, source files, translator): skip it when that triple was validated before
+        h = hashlib.sha256(text.encode())
+        for f in sorted({t['kw'].get('file') or GROUPS[group]['src'] for t in GROUPS[group]['targets']}):
+            h.update(open(os.path.join(REPO, f), 'rb').read())
+        for f in (__file__, pyarith.__file__):
+            h.update(open(f, 'rb').read())
+        stamp = os.path.join(LEAN, '.lake', f'srcval_{group}.stamp')
+        try:
+            cached = open(stamp).read() == h.hexdigest()
+        except OSError:
+            cached = False
+        bad = {} if cached else validate(group, [d for d in info])
+        if not bad and not cached and not lost:
+            try:
+                with open(stamp, 'w') as f:
+                    f.write(h.hexdigest())
+            except OSError:
+                pass
         if bad:                      # the translation does not compute what Python computes: do not keep it
             text, info, lost = generate(group, force_old=bad, old=old)
             changed = write_if_changed(path, text) or changed
